@@ -18,6 +18,7 @@ import math
 
 from vlib import env
 from vlib.report import pmap
+from checks.b01 import _h
 
 RULE = ('non-trivial = (canonical string, spec) with >= 2 atoms whose written text was read back and compared; for injectivity '
         '(canonical string, "inj") of molecules that share the constitution of another domain molecule (stereoisomer families)')
@@ -346,7 +347,7 @@ def bounded(run):
         by_string.setdefault(s0, []).append(ident)
         if bad:
             spec, text, d, _sub = bad[0]
-            run.violation(f'roundtrip:{ident}', f'C02 write->read, spec {spec!r}: {d} [atlas input {ident}, text {text!r}]' +
+            run.violation(f'roundtrip:{_h(ident)}:{ident}', f'C02 write->read, spec {spec!r}: {d} [atlas input {ident}, text {text!r}]' +
                           (f' (also specs {[b[0] for b in bad[1:]]})' if len(bad) > 1 else ''),
                           witness={'relation': 'roundtrip', 'domain': 'atlas', 'input': ident, 'record': by_id[ident], 'spec': spec,
                                    'text': text}, native={'canonical': s0, 'differences': {b[0]: [b[1], b[2]] for b in bad}})
@@ -372,13 +373,13 @@ def bounded(run):
                 continue
             done.add(fl)
             same = [b for b in bad if (tuple(b[3]) if b[3] else ()) == fl]
-            run.violation(f'roundtrip:{text}' + (f'/flip{list(fl)}' if fl else ''),
+            run.violation(f'roundtrip:{_h(text + str(fl))}:{text}' + (f'/flip{list(fl)}' if fl else ''),
                           f'C02 write->read, spec {spec!r}: {d} [corpus input {text}, text {tx!r}]' +
                           (f' (also specs {[b[0] for b in same[1:]]})' if len(same) > 1 else ''),
                           witness={'relation': 'roundtrip', 'domain': 'corpus', 'input': text, 'spec': spec, 'text': tx, 'flip': sub},
                           native={'canonical': s0, 'differences': {b[0]: [b[1], b[2]] for b in same}})
         for sa, sb, fs, why in inj_bad:
-            run.violation(f'injectivity:{text}|{sa}|{sb}', f'C02 injectivity: stereoisomers {sa} and {sb} (inverted elements) of {text} share '
+            run.violation(f'injectivity:{_h(text + str(sa) + str(sb))}:{text}|{sa}|{sb}', f'C02 injectivity: stereoisomers {sa} and {sb} (inverted elements) of {text} share '
                                                            f'the canonical string {fs!r}: {why}',
                           witness={'relation': 'injectivity', 'domain': 'corpus', 'input': text, 'a': sa, 'b': sb}, native={'string': fs})
 
@@ -397,7 +398,7 @@ def bounded(run):
             if same is None:
                 notes['injectivity_undecided'] += 1
             elif same is False:
-                run.violation(f'injectivity:{members[0]}|{other}',
+                run.violation(f'injectivity:{_h(members[0] + other)}:{members[0]}|{other}',
                               f'C02 injectivity: molecules {members[0]} and {other} are not isomorphic (incl. configuration) but share the '
                               f'canonical string {s0!r}',
                               witness={'relation': 'injectivity', 'domain': 'atlas', 'record_a': by_id[members[0]], 'record_b': by_id[other]},
